@@ -13,8 +13,9 @@ from pathlib import Path
 from typing import Any, Callable
 
 VERIF = Path(__file__).resolve().parent.parent
-EVIDENCE = VERIF / "evidence"
-REPLAY = VERIF / "replay"
+EVIDENCE = Path(os.environ.get("VERIF_EVIDENCE_DIR") or VERIF / "evidence")
+REPLAY = Path(os.environ["VERIF_EVIDENCE_DIR"]) / "replay" if os.environ.get("VERIF_EVIDENCE_DIR") else VERIF / "replay"
+REPO = Path(os.environ.get("VERIF_REPO") or "/repo")
 FINDINGS = VERIF / "known_findings.json"
 
 
@@ -65,6 +66,49 @@ class Ctx:
 
     def log(self, *a: Any):
         print("[%s %6.1fs]" % (self.prop, time.time() - self.t0), *a, file=sys.stderr, flush=True)
+
+
+class Hang(BaseException):
+    """Raised by `time_limit` when the code under test does not come back."""
+
+
+_TL = {"active": False, "deadline": 0.0, "installed": False}
+
+
+def _tl_handler(signum, frame):
+    if _TL["active"]:      # one shot: a stale tick (nothing being timed) is ignored
+        _TL["active"] = False
+        raise Hang()
+
+
+class time_limit:
+    """Context manager: raise Hang in the main thread if the body runs longer than `seconds`.
+    The SIGALRM handler is installed once and stays installed (it ignores ticks while nothing is timed)."""
+
+    def __init__(self, seconds: float):
+        self.seconds = seconds
+
+    def __enter__(self):
+        import signal
+
+        if not _TL["installed"]:
+            signal.signal(signal.SIGALRM, _tl_handler)
+            _TL["installed"] = True
+        _TL["deadline"] = time.time() + self.seconds
+        _TL["active"] = True
+        signal.setitimer(signal.ITIMER_REAL, self.seconds)
+        return self
+
+    def __exit__(self, *exc):
+        import signal
+
+        try:
+            _TL["active"] = False
+            signal.setitimer(signal.ITIMER_REAL, 0)
+        except Hang:  # the tick arrived while leaving: the body had finished, nothing to report
+            _TL["active"] = False
+            signal.setitimer(signal.ITIMER_REAL, 0)
+        return False
 
 
 def _match(matcher: dict[str, Any], case: dict[str, Any]) -> bool:
@@ -130,7 +174,7 @@ def finish(ctx: Ctx) -> int:
         if f["key"] in known_hit:
             print(f"KNOWN-FINDING: property={ctx.prop} {f['key']}: {f['what']} (reproduced on {known_hit[f['key']]} case(s))")
     rc = 0
-    REPLAY.mkdir(exist_ok=True)
+    REPLAY.mkdir(parents=True, exist_ok=True)
     # group unknown violations by clause to keep output readable
     shown = 0
     for n, v in enumerate(unknown):
@@ -174,7 +218,7 @@ def write_evidence(ctx: Ctx, n_viol: int, known_hit: dict[str, int]):
         "wall_s": round(time.time() - ctx.t0, 2),
         "violations": n_viol,
     }
-    EVIDENCE.mkdir(exist_ok=True)
+    EVIDENCE.mkdir(parents=True, exist_ok=True)
     (EVIDENCE / f"{ctx.prop}.json").write_text(json.dumps(ev, indent=1) + "\n")
 
 
